@@ -309,6 +309,13 @@ def run(ctx: Ctx) -> int:
                   f"ds.SelectMany(lambda e: e.{C}('A')).Select(lambda j: (PairColl(j).Count(), PairColl(j).Select(lambda p: p.second).Sum()))",
                   f"ds.Select(lambda e: e.{C}('A').Where(lambda j: GoodTracks(j).Count() > 0).Select(lambda j: GoodTracks(j).First().eta()))"):
             cases.append(diff.Case(backend, q, evs, diff.members_used(s, q) + coll_fns, tag={"builtin": True, "method": False, "collection_function": True}, extra_globals=cg))
+        # two functions whose headers share a FILE NAME (PkgA/helpers.h, PkgB/interface/helpers.h): each needs its own
+        twin = [{"metadata_type": "add_cpp_function", "name": "HelpA", "include_files": ["PkgA/helpers.h"], "arguments": ["x"], "code": ["auto result = pkga::twice(x);"], "return_type": "double"},
+                {"metadata_type": "add_cpp_function", "name": "HelpB", "include_files": ["PkgB/interface/helpers.h", "cmath"], "arguments": ["x"], "code": ["auto result = pkgb::thrice(x);"], "return_type": "double"}]
+        for q in (f"ds.SelectMany(lambda e: e.{C}('A')).Select(lambda j: (HelpA(j.pt()), HelpB(j.eta())))",
+                  f"ds.Select(lambda e: e.{C}('A').Select(lambda j: HelpB(HelpA(j.pt()) + 1.0)))"):
+            cases.append(diff.Case(backend, q, evs, diff.members_used(s, q) + twin, tag={"builtin": True, "method": False, "headers_sharing_a_file_name": True},
+                                   extra_globals={"HelpA": lambda x: 2 * x, "HelpB": lambda x: 3 * x}))
         # ONE method-style function at several call sites with different receivers (nested and sibling lambdas)
         acc = "->" if backend == "atlas" else "."
         methf = {"metadata_type": "add_cpp_function", "name": "MethF", "include_files": [], "arguments": ["f"], "code": [f"auto result = obj_x{acc}pt() * f + obj_x{acc}eta();"], "return_type": "double",
